@@ -380,6 +380,41 @@ pub fn run(run: &mut Run) {
         }
     }
 
+    // (g) visitor-level errors nested in each other: every failing (and some valid) fragment in
+    //     every argument slot of every macro / optional / wrapper template, two levels deep (an
+    //     already-rejected argument is itself checked by the enclosing macro)
+    run.sub("semantic-nesting");
+    {
+        let inner: Vec<&str> = vec![
+            "has(1)", "has(a)", "has(a[0])", "has(f())", "a.map(1, x)", "a.map(b.c, x)", "a.all(f(), true)", "a.exists('s', true)", "a.exists_one([x], true)", "a.filter(-x, true)",
+            "a.map(1, true, x)", "a.?b", "a[?0]", "[?1]", "{?1: 2}", "T{?f: 1}", "99999999999999999999", "-9223372036854775809", "18446744073709551616u", "1e999", "\"\\ud800\"",
+            "'\\U00110000'", "b'\\u0041'", "b\"\\U00000041\"", "'\\400'", "1.all(x, true)", "has(a.b)", "x", "a.b", "1", "a.map(x, x)", "a.all(x, true, 3)", "has()", "has(a.b, c)", "a.map()", "a.map(x)",
+            "a.b.map(x, y, z, w)", "dyn(1)", "x.y(has(2))",
+        ];
+        let holes: Vec<&str> = vec![
+            "has(#)", "has(#.f)", "has((#).f)", "#.map(x, x)", "a.map(#, x)", "a.map(x, #)", "a.all(#, true)", "a.all(x, #)", "a.exists(#, true)", "a.exists(x, #)", "a.exists_one(#, true)",
+            "a.exists_one(x, #)", "a.existsOne(#, true)", "a.filter(#, true)", "a.filter(x, #)", "a.map(#, true, x)", "a.map(x, #, x)", "a.map(x, true, #)", "a.?#", "a[?#]", "[?#]", "{?#: 1}", "{?1: #}",
+            "T{?f: #}", "T{f: #}", "-#", "!#", "(#).f", "(#)[0]", "f(#)", "(#).g()", "[#, #]", "# + #", "{#: #}", "# ? # : #",
+        ];
+        let fill = |h: &str, x: &str| h.replace('#', x);
+        for h in holes.iter() {
+            for x in inner.iter() {
+                if run.take() {
+                    judge(run, "semantic-nesting", &fill(h, x));
+                }
+            }
+        }
+        for h2 in holes.iter() {
+            for h1 in holes.iter() {
+                for x in inner.iter() {
+                    if run.take() {
+                        judge(run, "semantic-nesting", &fill(h2, &fill(h1, x)));
+                    }
+                }
+            }
+        }
+    }
+
     // (d) nesting depth 1..32 of every nesting construct, balanced and with one closer removed
     run.sub("depth");
     let constructs: [(&str, &str, &str, &str); 14] = [
